@@ -80,6 +80,17 @@ pub fn make_case(class: u64, idx: u64, seed: u64) -> Case {
             ops.push(Op::Unwrap(r.range(0, 40) as usize));
         }
     }
+    if class == 3 {
+        // message lengths walking across the sizes an implementation might buffer by: powers of two from 512 to 32 KiB,
+        // sixteen bytes (one signature) either side of each
+        ops.clear();
+        let p = 512usize << (idx % 7);
+        let base = p - 17 + (idx / 7 % 3) as usize * 12;
+        for k in 0..12 {
+            let len = base + k;
+            ops.push(if (idx / 21 + k as u64) % 4 == 0 { Op::Unwrap(len) } else { Op::Wrap(len) });
+        }
+    }
     Case { handshake: class == 1, key_seed: r.next(), ops, gen: [class, idx, seed] }
 }
 
@@ -144,6 +155,24 @@ fn tampers(m: &[u8], r: &mut Rng, exhaustive_bits: bool) -> Vec<(String, Vec<u8>
         let mut t = m.to_vec();
         t[0..4].copy_from_slice(&v.to_le_bytes());
         out.push(("version-substituted".into(), t));
+    }
+    // header fields blanked or filled (the "dummy signature" of a peer that signs nothing), alone and with the
+    // ciphertext altered as well
+    for fill in [0u8, 0xff].iter() {
+        let mut t = m.to_vec();
+        for x in t[4..12].iter_mut() {
+            *x = *fill;
+        }
+        out.push(("checksum-blanked".into(), t.clone()));
+        for x in t[12..16].iter_mut() {
+            *x = *fill;
+        }
+        out.push(("checksum-and-seqnum-blanked".into(), t.clone()));
+        if t.len() > 16 {
+            let k = 16 + r.below(t.len() as u64 - 16) as usize;
+            t[k] ^= 1 << r.below(8);
+            out.push(("header-blanked-and-ciphertext-altered".into(), t));
+        }
     }
     let seq = u32::from_le_bytes([m[12], m[13], m[14], m[15]]);
     for v in [seq.wrapping_add(1), seq.wrapping_sub(1), 0xffffffff, seq ^ 0x100].iter() {
@@ -374,7 +403,7 @@ pub fn run(cfg: &Cfg) -> Report {
             }
         }
     }
-    let plan: Vec<(u64, u64)> = vec![(0, cfg.n(600, 20_000)), (1, cfg.n(4_000, 200_000)), (2, cfg.n(60, 3_000))];
+    let plan: Vec<(u64, u64)> = vec![(0, cfg.n(600, 20_000)), (1, cfg.n(4_000, 200_000)), (2, cfg.n(60, 3_000)), (3, cfg.n(42, 2_100))];
     for (class, n) in plan {
         if !cfg.wants(class) {
             continue;
